@@ -148,6 +148,20 @@ def run(ctx: Ctx) -> Result:
                         except BaseException as e: viol(hist, idx, 'run_auth_scripts returns', type(e).__name__ + str(e)); return False
                         want3 = spec_pl['signature_extensions'] + ['cA', 'cB'] + spec_pl['signature_extensions'] + ['cA', 'cB']
                         if log != want3: viol(hist, idx, f'a three-script authorization consults exactly {want3}', list(log)); return False
+                    # each contract on its own through run_auth_scripts with nothing injected (all defaults): consulted iff active NOW -
+                    # an authorization made earlier, while it was active, must not keep it reachable
+                    for cid_, tag_ in ((b'A', 'cA'), (b'B', 'cB')):
+                        del log[:]
+                        one_ = G.push(b'\x00') + G.push(cid_) + bytes([G.names()['INVOKE']])
+                        try: F.run_auth_scripts([bytes([1]), one_])
+                        except BaseException as e: viol(hist, idx, 'run_auth_scripts returns', type(e).__name__ + str(e)); return False
+                        want1 = [tag_] if cid_ in spec_ct else []
+                        if log != want1: viol(hist, idx, f'an authorization (no contracts injected) invoking {cid_!r} consults exactly {want1}', list(log)); return False
+                        mine_ = {}
+                        del log[:]
+                        try: F.run_auth_scripts([bytes([1]), one_], {}, mine_)
+                        except BaseException as e: viol(hist, idx, 'run_auth_scripts returns', type(e).__name__ + str(e)); return False
+                        if mine_ != {}: viol(hist, idx, "caller's (empty) contracts dict unchanged by run_auth_scripts", sorted(map(repr, mine_))); return False
                     # the same caller dict reused for several runs (with and without its own 'timestamp'): a run that writes to its
                     # cache must neither change the caller's dict nor be visible to the next run
                     for d in (shared_ts, shared_plain):
@@ -175,12 +189,15 @@ def run(ctx: Ctx) -> Result:
                 elif op == 'compile_alias':
                     # an alias is usable in every position while it is active - also right after a one-symbol explicit push
                     opc_ = {k: v for k, v in G.names().items()}
-                    for al_ in ('ZZ1', 'ZZ2'):
+                    for al_ in ('ZZ1', 'ZZ2', 'OP_XOR'):
                         for src, enc in ((f'OP_PUSH1 x01 {al_}', b'\x03\x01\x01'), (f'true {al_.lower()}', b'\x01'), (f'OP_PUSH2 x0102 {al_}', b'\x04\x00\x02\x01\x02'), (f'push d1 {al_}', b'\x02\x01')):
                             got = fresh_compile(src)
                             if al_ in spec_al:
                                 want = (enc + bytes([opc_[spec_al[al_][3:]]])).hex()
                                 if got != want: viol(hist, idx, f'compile_script({src!r}) with alias {al_} -> {spec_al[al_]} active = {want}', got); return False
+                            elif al_ == 'OP_XOR':
+                                # an alias spelled like an instruction name: while it is not active the name means the instruction itself
+                                if got != (enc + bytes([opc_['XOR']])).hex(): viol(hist, idx, f'compile_script({src!r}) while OP_XOR is not an alias = the XOR instruction', got); return False
                             elif not got.startswith('ERR'):
                                 viol(hist, idx, f'compile_script({src!r}) is rejected while {al_} is not an alias', got); return False
                 elif op == 'assemble':
@@ -284,7 +301,7 @@ def run(ctx: Ctx) -> Result:
             'contracts': [('add_contract', 'cA'), ('add_contract', 'cB'), ('remove_contract', 'cA'), ('remove_contract', 'cB'), ('run',)],
             'interfaces': [('add_iface', 'iX'), ('add_iface', 'iY'), ('remove_iface', 'iX'), ('remove_iface', 'iY')],
             'iface_gate': [('add_iface', 'iX'), ('remove_iface', 'iX'), ('add_contract_x', 'k1'), ('add_contract_x', 'k2'), ('add_contract_x', 'none'), ('remove_contract_x',)],
-            'aliases': [('add_alias', 'zz1', 'OP_TRUE'), ('add_alias', 'zz2', 'op_false'), ('add_alias', 'ZZ1', 'OP_DUP'), ('add_alias', 'true', 'OP_TRUE'), ('compile_alias',)],
+            'aliases': [('add_alias', 'zz1', 'OP_TRUE'), ('add_alias', 'zz2', 'op_false'), ('add_alias', 'ZZ1', 'OP_DUP'), ('add_alias', 'true', 'OP_TRUE'), ('add_alias', 'OP_XOR', 'OP_OR'), ('compile_alias',)],
             'compile': [('compile', s) for s in compile_probes[:3]] + [('assemble', compile_probes[0]), ('assemble', compile_probes[1])],
             'compile_rt': [('add_contract', 'cA'), ('remove_contract', 'cA'), ('compile_rt',), ('compile', compile_probes[2])],
         }
